@@ -1138,14 +1138,14 @@ def logspace(start, stop, num=50, **kw):
 
 
 def ceil(x):
-    if not _use_shim(x):
-        return np.ceil(x)
+    if not _sym_args(x) and not (isinstance(x, SArr) and _sym_args(x.flat)):
+        return asarr(np.ceil(np.array(x.flat).reshape(x.shape))) if isinstance(x, SArr) else np.ceil(x)
     raise SxUnsupported("ceil of a symbolic value")
 
 
 def floor(x):
-    if not _use_shim(x):
-        return np.floor(x)
+    if not _sym_args(x) and not (isinstance(x, SArr) and _sym_args(x.flat)):
+        return asarr(np.floor(np.array(x.flat).reshape(x.shape))) if isinstance(x, SArr) else np.floor(x)
     raise SxUnsupported("floor of a symbolic value")
 
 
